@@ -177,6 +177,14 @@ impl PartitionStorage for FilePartitionStorage {
             partition.segments.push(segment);
         }
 
+        if partition.segments.is_empty() {
+            // A purge deletes every segment before it creates the new one, the server might have
+            // stopped in between. A partition always has a segment to append to.
+            partition.add_persisted_segment(0).await.with_error_context(|error| {
+                format!("{COMPONENT} (error: {error}) - failed to add the first segment, partition: {partition}",)
+            })?;
+        }
+
         partition
             .segments
             .sort_by(|a, b| a.start_offset.cmp(&b.start_offset));
@@ -362,6 +370,17 @@ impl PartitionStorage for FilePartitionStorage {
         path: &str,
     ) -> Result<Vec<ConsumerOffset>, IggyError> {
         trace!("Loading consumer offsets from path: {path}...");
+        if !Path::new(path).exists() {
+            // A purge removes this directory and creates it again at its end, the server might
+            // have stopped in between.
+            if fs::create_dir_all(path).await.is_err() {
+                return Err(IggyError::CannotCreateConsumerOffsetsDirectory(
+                    path.to_owned(),
+                ));
+            }
+            return Ok(Vec::new());
+        }
+
         let dir_entries = fs::read_dir(&path).await;
         if dir_entries.is_err() {
             return Err(IggyError::CannotReadConsumerOffsets(path.to_owned()));
